@@ -146,7 +146,7 @@ func ruleC18(r *Report) {
 				why += ": e.g. under " + firstCube(B, B.And(accept, B.Not(sig)))
 			}
 			r.Check(ok, "C18.sig-required", cons, p.InstrPos(u.Call), "accept => validator("+elAP+") == nil", why)
-			r.Check(strings.HasSuffix(elAP, ".Root()"), "C18.sig-required", t.name+": the unmarshalled element is the document root", p.InstrPos(u.Call), elAP, "the element unmarshalled is "+elAP+", not the root of the parsed document")
+			r.Check(strings.HasSuffix(elAP, ".Root()") || isDocumentRoot(p, u.FC, u.Call.Call.Args[0], 0), "C18.sig-required", t.name+": the unmarshalled element is the document root", p.InstrPos(u.Call), elAP, "the element unmarshalled is "+elAP+", not the root of the parsed document")
 			// the unmarshal itself must have succeeded
 			ua := nilAtomOf(u)
 			r.Check(B.HasVar(ua) && B.Implies(accept, B.Var(ua)), "C18.sig-required", t.name+": valid only if the response unmarshalled", p.InstrPos(u.Call), "accept => unmarshal == nil", "a response that failed to unmarshal can be reported valid")
@@ -248,4 +248,70 @@ func ruleC18(r *Report) {
 func calleeIs(c *ssa.Call, name string) bool {
 	scf := c.Call.StaticCallee()
 	return scf != nil && scf.String() == name
+}
+
+// isDocumentRoot: v is Document.Root() of a parsed document, possibly handed through a module helper that
+// returns it or received as a parameter from callers that all pass it.
+func isDocumentRoot(p *Prog, fc *FuncCtx, v ssa.Value, depth int) bool {
+	if depth > 5 {
+		return false
+	}
+	switch x := Resolve(v).(type) {
+	case *ssa.Call:
+		scf := x.Call.StaticCallee()
+		if scf == nil {
+			return false
+		}
+		if scf.String() == "(*github.com/beevik/etree.Document).Root" {
+			return true
+		}
+		if p.InModule(scf) && len(scf.Blocks) > 0 {
+			sub := fc.A.Ctx(scf)
+			n := 0
+			for _, ret := range sub.Returns() {
+				if len(ret.Results) == 0 {
+					return false
+				}
+				rv := Resolve(ret.Results[0])
+				if isNilConst(rv) {
+					continue
+				}
+				n++
+				if !isDocumentRoot(p, sub, rv, depth+1) {
+					return false
+				}
+			}
+			return n > 0
+		}
+	case *ssa.Extract:
+		if x.Index == 0 {
+			return isDocumentRoot(p, fc, x.Tuple, depth+1)
+		}
+	case *ssa.Phi:
+		for _, e := range x.Edges {
+			if !isDocumentRoot(p, fc, e, depth+1) {
+				return false
+			}
+		}
+		return len(x.Edges) > 0
+	case *ssa.Parameter:
+		idx := -1
+		for i, q := range fc.Fn.Params {
+			if q == x {
+				idx = i
+			}
+		}
+		sites := p.CallersOf(fc.Fn)
+		if idx < 0 || len(sites) == 0 || (fc.Fn.Object() != nil && fc.Fn.Object().Exported()) {
+			return false
+		}
+		for _, cs := range sites {
+			arg := cs.Arg(idx)
+			if arg == nil || !isDocumentRoot(p, fc.A.Ctx(cs.Caller), arg, depth+1) {
+				return false
+			}
+		}
+		return true
+	}
+	return false
 }
